@@ -57,6 +57,11 @@ fn tame() -> impl Strategy<Value = Tm> {
         1 => any::<u8>().prop_map(Tm::LdFr),
         1 => prop::sample::select(vec![0x00u8, 0x08, 0x0F, 0x07, 0xF8]).prop_map(Tm::LdFr),
         2 => (prop::sample::select(vec![0xB0u8, 0xC0]), 0u8..3, 0u8..3).prop_map(|(b, d, s)| Tm::Alu(b, d, s)),
+        // port traffic of the main program: stores to and loads from the I/O page (everything but the
+        // interrupt mask/status register 0xF9, which KeyEnable handles and whose read-out legitimately
+        // depends on the key press)
+        1 => (prop::sample::select(vec![0xF0u8, 0xF1, 0xF2, 0xF3, 0xFA, 0xFB, 0xFC, 0xFD, 0xFE, 0xFF]), 0u8..3).prop_map(|(a, r)| Tm::StAbs(a, r)),
+        1 => (0u8..3, prop::sample::select(vec![0xF0u8, 0xF1, 0xF2, 0xF3, 0xFA, 0xFB, 0xFC, 0xFD, 0xFE, 0xFF])).prop_map(|(r, a)| Tm::LdAbs(r, a)),
     ]
 }
 
